@@ -62,6 +62,36 @@ class V2(object):
         reset_side()
         self.disk = Disk()
         self.disk.add('bundle', self.arr0, BV64(self.L))
+        # stubs that let the real public methods (store_tiles / remove_tile) run end to end
+        import contextlib
+        disk = self.disk
+        C.__dict__['__builtins__']['open'] = lambda name, mode='r': SymFile(disk, 'bundle')
+
+        @contextlib.contextmanager
+        def lock(*a, **k):
+            yield
+        C.__dict__['FileLock'] = lock
+
+        class OS(object):
+            SEEK_SET, SEEK_END = 0, 2
+
+            class path(object):
+                exists = staticmethod(lambda p: True)
+                join = staticmethod(lambda *a_: '/'.join(a_))
+        C.__dict__['os'] = OS
+
+        @contextlib.contextmanager
+        def tile_buffer(tile):
+            class Buf(object):
+                def read(self_):
+                    return tile.source
+            yield Buf()
+            tile.stored = True
+        C.__dict__['tile_buffer'] = tile_buffer
+        self.b.filename = '/b/R0000C0000.bundle'
+        self.b.lock_filename = '/b/R0000C0000.lck'
+        self.b.file_permissions = self.b.directory_permissions = None
+        self.b._initialized = False
 
     def entry(self, arr, length, x, y):
         """(offset, size) the real reader decodes for slot (x, y) -- forks on size == 0"""
@@ -243,3 +273,22 @@ def inv_v1(dat, Ld, off, size):
 
 def disjoint_v1(off1, size1, off2, size2):
     return z3.Or(off1 == 0, off2 == 0, z3.ULE(off1 + 4 + size1, off2), z3.ULE(off2 + 4 + size2, off1))
+
+
+def untouched(log, fname, addr, length=1):
+    """frame argument: the byte range [addr, addr+length) of `fname` is outside every write the
+    real code flushed (so it is unchanged after the operation and in every crash image)"""
+    conj = []
+    for name, off, bs in log:
+        if name != fname:
+            continue
+        conj.append(z3.Or(z3.ULE(addr + length, off), z3.UGE(addr, off + len(bs))))
+    return z3.And(*conj) if conj else z3.BoolVal(True)
+
+
+def v2_index_addr(x, y):
+    return 64 + (z3.URem(x, 128) + 128 * z3.URem(y, 128)) * 8
+
+
+def v1_index_addr(x, y):
+    return 16 + (z3.URem(x, 128) * 128 + z3.URem(y, 128)) * 5
